@@ -214,13 +214,17 @@ def funnel(ctx: Ctx) -> None:
                 okf = False
         ctx.expect("R-FWD", bi, "file= reaches the tokenizer as the stream itself or its complete text", okf, "", f"file argument is {src(fv) if fv is not None else 'absent'}", node=tc)
     # the parse happens whenever a source was given, also an empty string
-    for tc in pc:
-        fs = facts(ctx, bi, tc)
-        txt = unparse_facts(fs)
-        good = any(isinstance(a, ast.BoolOp) and isinstance(a.op, ast.Or) and pol and all(
-            isinstance(v, ast.Compare) and isinstance(v.ops[0], ast.IsNot) and isinstance(v.comparators[0], ast.Constant) and v.comparators[0].value is None
-            for v in a.values) and {v.left.id for v in a.values if isinstance(v.left, ast.Name)} == {"file", "string"} for a, pol in fs) and len(fs) == 1
-        ctx.expect("R-TABLE", bi, "parse runs iff file or string is given (is not None)", good, txt, f"_parse runs under {txt}: an empty string or empty stream must still be parsed", node=tc)
+    from ..decide import decisions, judge_table
+    pset = {id(x) for x in pc}
+
+    def outcome(d):
+        for st in d.stmts():
+            if any(id(n) in pset for n in ast.walk(st)):
+                return "parse"
+        return "skip"
+
+    judge_table(ctx, "R-TABLE", bi, "parse runs iff file or string is given (is not None)", decisions(ctx, bi), ["file is None", "string is None"],
+                lambda a: "skip" if (a["file is None"] and a["string is None"]) else "parse", outcome, dont_care=["file", "isinstance(file, TextIO)"])
 
 
 def peek_copy(ctx: Ctx) -> None:
